@@ -44,7 +44,16 @@ RULE = (
     "dm's own objectives and values: a single objective inverter / every transformer in turn (1/2), or a sequence as in (b) (1/2, with an "
     "objective inverter appended when the replaced part is the objectives and the sequence holds none); built by hand / mkpipe / "
     "SKCPipeline as everywhere; where a second decision matrix goes through the same objects it has its own what-if copy one time in "
-    "two. Thorough adds (c) the exhaustive set: every matrix of shape "
+    "two. (f) VALUES THAT DIFFER ONLY BEYOND 7 SIGNIFICANT DIGITS (arbitrary doubles, 220 quick, a loop of its own): 2..3 alternatives "
+    "hold v, v(1+d), v(1+2d) on a criterion, d = 1e-12 .. 1e-8 (exact distinct doubles, not near-ties; v the largest magnitude of the "
+    "criterion one time in two), every transformer x target matrix / both and the inverters in turn, alone (1/2), followed by 1..2 "
+    "steps (1/4) or a sequence as in (b) (1/4). (g) VERY LONG matrices (8 quick, a loop of its own): 4097..9000 alternatives x 2..3 "
+    "criteria, whole numbers or eighths (float64 / all int64), the most negative value of every criterion only in a block of 1..4096 "
+    "rows at the start or at the end, far-apart dominated copies; PushNegatives, AddValueToZero and sequences of them with MinMaxScaler "
+    "/ MaxAbsScaler / NegateMinimize, most ending in InvertMinimize; the order of ALL pairs is judged per criterion (through the sorted "
+    "order), dominance tables are read on ~15 probed alternatives (dm.loc) before and after, and the model transforms the sub-matrix "
+    "of the probed rows and of the rows holding the minimum, the maximum and the zeros of every criterion at every step (cells within "
+    "1e-9 x scale, dominance tables equal). Thorough adds (c) the exhaustive set: every matrix of shape "
     "<= 3 x 2 over {-1,0,1,2} ({1,2} for the positive-data transformers) x every objective vector x every transformer, and again "
     "with ALL criteria int64 (and, two criteria, int64 next to float64): {1,2,3} for the positive-data transformers up to 3 x 2, "
     "{-1,0,1,2} up to 4 cells. "
@@ -526,6 +535,149 @@ def tiny_case(rng, cfg, by_name):
     return None
 
 
+# ----------------------------------------------------------------------------- values that differ only beyond 7 significant digits
+
+
+def _draw_steps(rng, by_name, mst, wst, objs, k):
+    """k further steps drawn as in sequence_case among those whose domain holds at that point"""
+    names, steps = sorted(by_name), []
+    for _ in range(k):
+        for _try in range(50):
+            nm, target, params = nxt = rng.choice(by_name[rng.choice(names)])
+            if target in allowed_targets(nm, mst, wst):
+                break
+        else:
+            break
+        st = concrete(rng, nxt)
+        steps.append(st)
+        mst, wst, objs = advance(st, mst, wst, objs)
+    return steps
+
+
+def close_case(rng, cfg, by_name):
+    """(f) a decision matrix of arbitrary doubles in which some criteria hold 2..3 alternatives whose values differ only beyond
+    7 significant digits: v, v(1 + d), v(1 + 2d) with d = 1e-12 .. 1e-8 (one draw in two in the upper half decade 3e-9 .. 1e-8), exact
+    distinct doubles far from being neighbouring ones (1000.00001 vs 1000.00002).  v is a cell of the criterion, a round figure, or
+    (one in two) the largest magnitude of the criterion, so that the pair is not small next to the output scale.  The transformer of
+    the configuration alone (1/2), followed by 1..2 more steps (1/4) or a sequence drawn as in (b) (1/4)"""
+    step = concrete(rng, cfg)
+    needs_pos = step["name"] in POS_ONLY or step["name"] == "InvertMinimize"
+    for _ in range(60):
+        m, n = rng.randint(3, 8), rng.randint(1, 5)
+        positive = needs_pos or rng.random() < 0.5
+        objs = G.objectives(rng, n, rng.choice(["mixed", "mixed", "mixed", "min", "max"]))
+        A = G.matrix(rng, m, n, "float", positive=positive, ties=0.15, dups=0.0, dominated=0.2, objs=objs)
+        w = G.weights(rng, n, "float")
+        ok = True
+        for j in [j for j in range(n) if rng.random() < 0.6] or [rng.randrange(n)]:
+            c = rng.choice([2, 2, 3]) if m >= 4 else 2
+            idx = rng.sample(range(m), c)
+            rest = [A[i][j] for i in range(m) if i not in idx]
+            r = rng.random()
+            if r < 0.5:
+                v = max(abs(x) for x in rest) * rng.uniform(1.0, 2.0)
+            elif r < 0.75:
+                v = abs(rng.choice(rest))
+            else:
+                v = rng.choice([1000.0, 250.0, 37.5, 12345.0, 99999.0, 1.0, 0.001])
+            if not positive and rng.random() < 0.3:
+                v = -v
+            d = 10 ** (rng.uniform(-8.5, -8.0) if rng.random() < 0.5 else rng.uniform(-12.0, -8.0))
+            vals = [v * (1 + t * d) for t in range(c)]
+            if v == 0 or any(near_tie(a, b) for a, b in itertools.combinations(vals, 2)):
+                ok = False
+                break
+            rng.shuffle(vals)
+            for i, x in zip(idx, vals):
+                A[i][j] = x
+        if not ok:
+            continue
+        dm = {"matrix": A, "objectives": objs, "weights": w, "alternatives": G.labels(rng, G.LABEL_POOL_ALT, m),
+              "criteria": G.labels(rng, G.LABEL_POOL_CRIT, n), "family": "float", "dtypes": ["float"] * n}
+        mst, wst = state_of([x for r in A for x in r]), state_of(w)
+        r = rng.random()
+        if r < 0.75:
+            if not domain_ok([step], dm):
+                continue
+            steps = [step]
+            if r >= 0.5:
+                steps += _draw_steps(rng, by_name, *advance(step, mst, wst, list(objs)), rng.randint(1, 2))
+        else:
+            steps = _draw_steps(rng, by_name, mst, wst, list(objs), rng.randint(1, 4))
+            if not steps:
+                continue
+        return finish(rng, "close", dm, steps, positive, True)
+    return None
+
+
+# ----------------------------------------------------------------------------- very long matrices
+
+# the transformers whose per-criterion statistic is the minimum, the maximum or the presence of a 0: a sub-matrix that holds the rows
+# where these are attained is transformed (by the model) exactly as the full one
+LONG_STEPS = ("PushNegatives", "AddValueToZero", "MinMaxScaler", "MaxAbsScaler", "NegateMinimize", "InvertMinimize")
+
+
+def _long_pipe(rng, i, t):
+    push = {"name": "PushNegatives", "target": t, "params": {}}
+    add = {"name": "AddValueToZero", "target": t, "params": {"value": rng.choice([1.0, 0.5, 0.125, 3.75])}}
+    inv = {"name": "InvertMinimize", "target": "matrix", "params": {}}
+    neg = {"name": "NegateMinimize", "target": "matrix", "params": {}}
+    lo = rng.randint(1, 24) / 8
+    mmx = {"name": "MinMaxScaler", "target": t, "params": {"lo": lo, "hi": lo + rng.randint(1, 32) / 8, "clip": rng.random() < 0.5}}
+    return [
+        [push],
+        [push, add, inv],
+        [{"name": "AddValueToZero", "target": t, "params": {"value": rng.choice([1.0, 0.5, -0.5, 2.25])}}],
+        [push, add, {"name": "MaxAbsScaler", "target": "matrix", "params": {}}, inv],
+        [push, neg],
+        [mmx, inv],
+        [neg, push, add],
+        [push, add],
+    ][i % 8]
+
+
+def long_case(rng, i):
+    """(g) a VERY LONG decision matrix: 4097 .. 9000 alternatives x 2..3 criteria, whole numbers -20 .. 20 or eighths -2.5 .. 2.5
+    (float64 or all int64), in which the most negative value of every criterion (1..3 cells, clearly below the rest) sits ONLY in a
+    block of rows at the start or at the end of the matrix (block of 1 .. 4096 rows); 2..3 alternatives at the far end are copies
+    of one at the near end made worse on some criteria (dominance between far-apart alternatives).  Pipelines: PushNegatives,
+    AddValueToZero, and sequences of them with MinMaxScaler / MaxAbsScaler / NegateMinimize, most ending in InvertMinimize.
+    probe: the rows whose dominance tables are read (the planted ones and a few of each end)"""
+    m, n = rng.randint(4097, 9000), rng.randint(2, 3)
+    objs = G.objectives(rng, n, "mixed")
+    ints = rng.random() < 0.6
+    unit = 1.0 if ints else 0.125
+    A = [[rng.randint(-20, 20) * unit for _ in range(n)] for _ in range(m)]
+    B = min(rng.choice([1, 16, 256, 1024, 4096, 4096]), m // 2)
+    first = rng.random() < 0.5
+    block = range(0, B) if first else range(m - B, m)
+    F = max(64, min(B, 2048))
+    far = range(m - F, m) if first else range(0, F)
+    probe = set()
+    for j in range(n):
+        deep = -rng.randint(30, 120) * unit
+        for i in rng.sample(block, min(len(block), rng.randint(1, 3))):
+            A[i][j] = deep
+            probe.add(i)
+    for _ in range(rng.randint(2, 3)):  # dominance between far-apart alternatives
+        a, b = rng.choice(block), rng.choice(far)
+        if b in probe or a == b:
+            continue
+        A[b] = list(A[a])
+        for j in rng.sample(range(n), rng.randint(1, n)):
+            nv = A[a][j] - objs[j] * rng.randint(1, 8) * unit  # worse under the objective of the criterion
+            A[b][j] = nv if nv >= -20 * unit else A[a][j]
+        probe |= {a, b}
+    probe |= set(rng.sample(block, min(len(block), 3))) | set(rng.sample(far, 3)) | {0, m - 1, rng.randrange(m)}
+    dtypes = ["int"] * n if ints and rng.random() < 0.5 else ["float"] * n
+    dm = {"matrix": A, "objectives": objs, "weights": G.weights(rng, n, "dyadic"), "alternatives": ["r%d" % i for i in range(m)],
+          "criteria": G.labels(rng, G.LABEL_POOL_CRIT, n), "family": "dyadic", "dtypes": dtypes, "via": False}
+    steps = _long_pipe(rng, i, rng.choice(["matrix", "matrix", "both"]))
+    if not domain_ok(steps, dm):
+        return None
+    return {"kind": "long", "dm": dm, "pipelines": [steps], "names": [step_names(rng, len(steps))], "probe": sorted(probe)}
+
+
 EXH_ANY = [
     {"name": "MinMaxScaler", "target": "matrix", "params": {"lo": 0.0, "hi": 1.0, "clip": False}},
     {"name": "MinMaxScaler", "target": "both", "params": {"lo": -1.0, "hi": 2.0, "clip": True}},
@@ -621,6 +773,22 @@ def gen(ctx):
         if case is not None:
             cases.append(case)
             k += 1
+    # (f) values that differ only beyond 7 significant digits, every transformer (target matrix / both) and the inverters in turn
+    close_cfgs = {nm: [c for c in lst if c[1] != "weights"] for nm, lst in by_name.items()}
+    for i in range(ctx.n(220, 1200)):
+        lst = close_cfgs[names[i % len(names)]]
+        case = close_case(rng, lst[(i // len(names)) % len(lst)], by_name)
+        if case is not None:
+            cases.append(case)
+    # (g) very long matrices, the most negative values in the first / last block of rows only
+    k, want = 0, ctx.n(8, 24)
+    for i in range(4 * want):
+        if k >= want:
+            break
+        case = long_case(rng, i)
+        if case is not None:
+            cases.append(case)
+            k += 1
     if ctx.thorough:
         cases += exhaustive_cases()
     return cases
@@ -682,6 +850,8 @@ def observe(case):
     before any transformer sees them.  runs: for every pipeline, for every decision matrix of the case (the second one goes through the SAME objects as the first),
     the output of the pipeline.  Built as an object (SKCPipeline / mkpipe): `by_hand` is the output of the same steps applied one
     after the other with fresh transformers to that matrix alone"""
+    if case.get("kind") == "long":
+        return observe_long(case)
     with M.quiet():
         dms = [c11.mkdm(d) for d in case_dms(case)]
         out = {"before": _tables(dms[0]), "before_all": [_tables(d) for d in dms], "runs": []}
@@ -726,12 +896,92 @@ def observe(case):
         return out
 
 
+def observe_long(case):
+    """a very long matrix: the whole matrix goes through the pipeline (object / by hand, as everywhere) and the whole output is
+    reported; the dominance tables are read on the alternatives case["probe"] only (dm.loc[<labels>], before and after): the
+    relation among them is the restriction of the relation of the whole matrix, which has tens of millions of pairs"""
+    with M.quiet():
+        dm = c11.mkdm(case["dm"])
+        labels = [case["dm"]["alternatives"][i] for i in case["probe"]]
+        before = _tables(dm.loc[labels])
+        out = {"before": before, "before_all": [before], "runs": []}
+        pipe, names = case["pipelines"][0], case["names"][0]
+
+        def report(cur):
+            mat = np.asarray(cur.matrix.to_numpy(), dtype=float)
+            return {"matrix": mat.tolist(), "weights": np.asarray(cur.weights.to_numpy(), dtype=float).tolist(),
+                    "objectives": [int(x) for x in cur.iobjectives.to_numpy()], "finite": bool(np.all(np.isfinite(mat))),
+                    "alternatives_kept": np.asarray(cur.alternatives).tolist() == case["dm"]["alternatives"], "after": _tables(cur.loc[labels])}
+
+        try:
+            if names is not None:
+                cur = make_pipeline(pipe, names).transform(dm)
+            else:
+                cur = dm
+                for step in pipe:
+                    cur = build(step).transform(cur)
+            run = report(cur)
+        except Exception as e:
+            run = {"err": G.err_name(e), "msg": str(e)[:200]}
+        if names is not None:
+            try:
+                cur = dm
+                for step in pipe:
+                    cur = build(step).transform(cur)
+                ref = report(cur)
+                run["by_hand"] = {x: ref[x] for x in ("matrix", "weights", "objectives")}
+            except Exception as e:
+                run["by_hand"] = {"err": G.err_name(e), "msg": str(e)[:200]}
+        run["pipe"], run["which"] = 0, 0
+        out["runs"].append(run)
+        return out
+
+
+def witness_rows(dm, pipe):
+    """the rows where, at some step of the pipeline evaluated exactly, a criterion attains its minimum, its maximum or holds a 0:
+    the statistics the LONG_STEPS transformers read.  A sub-matrix holding these rows goes through the pipeline as the whole"""
+    n = len(dm["objectives"])
+    cols = [[C.F(r[j]) for r in dm["matrix"]] for j in range(n)]
+    objs, rows = list(dm["objectives"]), set()
+    for st in pipe:
+        for c in cols:
+            rows |= {min(range(len(c)), key=c.__getitem__), max(range(len(c)), key=c.__getitem__)}
+            if 0 in c:
+                rows.add(c.index(0))
+        name = st["name"]
+        if name == "NegateMinimize":
+            cols = [[-v for v in c] if o == -1 else c for c, o in zip(cols, objs)]
+            objs = [1] * n
+        elif name == "InvertMinimize":
+            cols = [[1 / v for v in c] if o == -1 else c for c, o in zip(cols, objs)]
+            objs = [1] * n
+        elif st["target"] in ("matrix", "both"):
+            cols = [exact_part(name, st["params"], c) for c in cols]
+    return rows
+
+
+def long_subset(case):
+    """the rows sent to the model: the probed alternatives first, then the witness rows"""
+    probe = list(case["probe"])
+    return probe + sorted(witness_rows(case["dm"], case["pipelines"][0]) - set(probe))
+
+
 def pipe_domain(pipe):
     return "float" if any(s["name"] in FLOAT_ONLY for s in pipe) else "rat"
 
 
 def requests(case, obs):
     reqs = []
+    if case.get("kind") == "long":
+        if "err" in obs["runs"][0]:
+            return []
+        dm, pipe = case["dm"], case["pipelines"][0]
+        assert all(s["name"] in LONG_STEPS for s in pipe)
+        rows = long_subset(case)
+        return [{"op": "tr", "domain": "rat", "M": [[C.rat(x) for x in dm["matrix"][i]] for i in rows],
+                 "O": ["max" if o == 1 else "min" for o in dm["objectives"]], "w": [C.rat(x) for x in dm["weights"]],
+                 "steps": [c11.tr_step(s["name"], s["target"], s["params"], C.rat) for s in pipe],
+                 "dom": [{"m": "dominance", "strict": False}, {"m": "dominance", "strict": True}]}]
     for pipe in case["pipelines"]:
         domain = pipe_domain(pipe)
         enc = C.fbits if domain == "float" else C.rat
@@ -874,7 +1124,111 @@ def describe(pipe, names=None):
     return d
 
 
+def order_breaks(x, y):
+    """x, y: the objective-oriented values of one criterion before / after (numpy vectors).  The order of ALL pairs is the same
+    iff it is for the pairs that are neighbours when the alternatives are sorted by x: returns the first such pair that breaks it,
+    as (kind, a, b) with kind reversed / born / merged, or None"""
+    order = np.argsort(x, kind="stable")
+    xs, ys = x[order], y[order]
+    s0, s1 = np.sign(xs[1:] - xs[:-1]), np.sign(ys[1:] - ys[:-1])
+    bad = np.nonzero(s0 != s1)[0]
+    if not len(bad):
+        return None
+    # a reversal first, if there is one
+    i = next((int(t) for t in bad if s0[t] != 0 and s1[t] != 0), int(bad[0]))
+    kind = "born" if s0[i] == 0 else "merged" if s1[i] == 0 else "reversed"
+    return kind, int(order[i]), int(order[i + 1])
+
+
+def judge_long(case, obs, replies):
+    """a very long matrix (exactly representable data): the order of every pair of alternatives on every criterion (through the
+    sorted order, see order_breaks), the dominance tables among the probed alternatives before vs after, the pipeline object vs
+    its steps by hand; the model on the sub-matrix of the probed and witness rows"""
+    out = []
+    dm, pipe, names, probe = case["dm"], case["pipelines"][0], case["names"][0], case["probe"]
+    run = obs["runs"][0]
+    label = describe(pipe, names) + " [%d alternatives]" % len(dm["matrix"])
+
+    def prop(what, expected=None, observed=None):
+        out.append({"kind": "property", "what": what, "expected": expected, "observed": observed})
+
+    def corr(what, expected=None, observed=None):
+        out.append({"kind": "correspondence", "what": what, "expected": expected, "observed": observed})
+
+    if "err" in run:
+        prop(f"{label}: raised {run['err']} inside its domain: {run.get('msg')}", "a transformed matrix", run["err"])
+        return out
+    if not run["finite"]:
+        prop(f"{label}: non-finite values in the output inside its domain", "finite", "non-finite cells")
+        return out
+    A, o = np.array(dm["matrix"], dtype=float), dm["objectives"]
+    Y, o2 = np.array(run["matrix"], dtype=float), run["objectives"]
+    if Y.shape != A.shape or not run["alternatives_kept"]:
+        prop(f"{label}: the output does not hold the alternatives of the input", list(A.shape), list(Y.shape))
+        return out
+    for j in range(len(o)):
+        br = order_breaks(A[:, j] * o[j], Y[:, j] * o2[j])
+        if br:
+            kind, a, b = br
+            what = {"reversed": "preference between two alternatives REVERSED on a criterion",
+                    "born": "two alternatives equal on a criterion became strictly ordered",
+                    "merged": "a strict preference became an equality on exactly representable data"}[kind]
+            prop(f"{label}: {what}", {"criterion": j, "pair": [a, b], "before": [A[a, j], A[b, j]], "objective_before": o[j]},
+                 {"after": [Y[a, j], Y[b, j]], "objective_after": o2[j]})
+            break
+    p = len(probe)
+    for k, strict in enumerate((False, True)):
+        before, after = obs["before"][k], run["after"][k]
+        diff = [(a, b) for a in range(p) for b in range(p) if before[a][b] != after[a][b]]
+        if diff:
+            a, b = diff[0]
+            ra, rb = probe[a], probe[b]
+            prop(f"{label}: dominance(strict={strict}) differs before and after",
+                 {"pair": [ra, rb], "before": before[a][b], "rows_before": [dm["matrix"][ra], dm["matrix"][rb]], "objectives_before": o},
+                 {"after": after[a][b], "rows_after": [run["matrix"][ra], run["matrix"][rb]], "objectives_after": o2})
+            break
+    ref = run.get("by_hand")
+    if ref is not None:
+        if "err" in ref:
+            corr(f"{label}: the steps applied by hand raise {ref['err']}, the pipeline object answers", ref["err"], "a transformed matrix")
+        else:
+            for part in ("matrix", "weights", "objectives"):
+                if ref[part] != run[part]:
+                    corr(f"{label}: {part} out of the pipeline object differs from the steps applied one after the other")
+                    break
+    if not replies:
+        return out
+    rep = replies[0]
+    if "err" in rep:
+        corr(f"{label}: model refuses, implementation accepts", rep["err"], "accepted")
+        return out
+    rows = long_subset(case)
+    mM = [[float(C.frac(x)) if x is not None else float("nan") for x in r] for r in rep["M"]]
+    mo = [1 if x == "max" else -1 for x in rep["O"]]
+    if mo != o2:
+        corr(f"{label}: objectives after, model vs implementation", mo, o2)
+        return out
+    for t, i in enumerate(rows):
+        for j in range(len(o)):
+            scale = max(1.0, float(np.max(np.abs(Y[:, j]))))
+            if not abs(mM[t][j] - Y[i, j]) <= 1e-9 * scale:
+                corr(f"{label}: transformed cell, model (on the sub-matrix of the probed rows and of the rows holding the minimum, "
+                     "the maximum and the zeros of every criterion) vs implementation (on the whole matrix)",
+                     {"row": i, "criterion": j, "model": mM[t][j]}, float(Y[i, j]))
+                return out
+    for k, strict in enumerate((False, True)):
+        mt, it = rep["dom"][k], run["after"][k]
+        diff = [(a, b) for a in range(p) for b in range(p) if mt[a][b] != it[a][b]]
+        if diff:
+            corr(f"{label}: dominance(strict={strict}) after among the probed alternatives, model vs implementation",
+                 {"pair": [probe[diff[0][0]], probe[diff[0][1]]]}, it)
+            break
+    return out
+
+
 def judge(case, obs, replies):
+    if case.get("kind") == "long":
+        return judge_long(case, obs, replies)
     out = []
     dms = case_dms(case)
     exact_family = case["dm"]["family"] == "dyadic"
@@ -983,6 +1337,13 @@ def tags(case, obs):
     t.append("dtypes:" + ("int" if all(x == "int" for x in dt) else "float" if all(x == "float" for x in dt) else "mixed"))
     o = dm["objectives"]
     t.append("objs:" + ("max" if all(x == 1 for x in o) else "min" if all(x == -1 for x in o) else "mixed"))
+    if case["kind"] == "long":
+        m = len(dm["matrix"])
+        t += ["len=%d" % len(case["pipelines"][0]), "alternatives:" + ("4097-6000" if m <= 6000 else "6001-9000"),
+              "pipeline:" + ">".join(s["name"] for s in case["pipelines"][0])]
+        if any(any(r) for r in obs["before"][1]):
+            t.append("has-strict-dominance")
+        return t
     if case["kind"] != "exh":
         names = (case.get("names") or [None])[0]
         k = len(case["pipelines"][0])
